@@ -1,97 +1,93 @@
 //vp:property C05
 //vp:pkg ./tsdb
-//vp:roots ./tsdb/chunkenc ./tsdb/chunks
-//vp:bounds visibility rule (memSeries.iterator stopAfter computation over m-mapped and head chunks, txRing.iterator): 0..2 m-mapped chunks and 0..2 head chunks of 1..2 samples each, the transaction ring covering the last r samples (every r) with arbitrary non-decreasing append IDs, arbitrary isolation state (maxAppendID any uint64, 0..2 incomplete append IDs), every chunk of the series
-//vp:assume append IDs recorded in the ring are non-decreasing in append order; harness chunks only count samples
+//vp:bounds the isolation bookkeeping object over every history of 5 operations drawn from {open an appender, close the oldest / the newest open appender, open a reader, close the oldest / the newest open reader} (case split over histories; sequential: the real code runs these under its mutexes): after every step the low watermark returned by isolation.lowWatermark / newAppendID is the smallest watermark any open reader captured, or without readers the lowest open append ID (the last issued ID if none is open); every reader state captures the last issued ID, exactly the set of open appends, and the lowest of them
+//vp:assume sequential histories; IDs start at 0 (the object's own counter); no symbolic scalar - the case split over histories is the whole input space of this harness
 package tsdb
 
-import (
-	"github.com/prometheus/prometheus/tsdb/chunkenc"
-	"github.com/prometheus/prometheus/tsdb/chunks"
-)
-
-type vpXCountChunk struct {
-	chunkenc.Chunk
-	n int
-}
-
-type vpXFullIt struct{ chunkenc.Iterator }
-
-func (c vpXCountChunk) NumSamples() int                              { return c.n }
-func (c vpXCountChunk) Iterator(chunkenc.Iterator) chunkenc.Iterator { return vpXFullIt{} }
-
-// An iterator over a chunk created under an isolation state returns exactly the leading samples
-// not preceded (in append order) by a sample of an append that is invisible to that state.
-func vpH_C05_stopAfter_step() {
-	s := &memSeries{}
-	var counts []int
-	nm := vpShape("mmapped", 0, 2)
-	for i := 0; i < nm; i++ {
-		c := vpShape("cnt", 1, 2)
-		counts = append(counts, c)
-		s.mmappedChunks = append(s.mmappedChunks, &mmappedChunk{numSamples: uint16(c)})
+func vpH_C05_isolation_history() {
+	iso := newIsolation(false)
+	type reader struct {
+		st  *isolationState
+		lw  uint64
+		max uint64
+		inc []uint64
 	}
-	nh := vpShape("head", 0, 2)
-	for i := 0; i < nh; i++ {
-		c := vpShape("cnt", 1, 2)
-		counts = append(counts, c)
-		s.headChunks = &memChunk{chunk: vpXCountChunk{n: c}, prev: s.headChunks}
-	}
-	s.headChunkCount.Store(uint32(nh))
-	if len(counts) == 0 {
-		return
-	}
-	total := 0
-	for _, c := range counts {
-		total += c
-	}
-	s.firstChunkID = chunks.HeadChunkID(vpShape("first", 0, 1) * 3)
-	r := vpShape("ring", 0, total)
-	s.txs = newTxRing(4)
-	ids := make([]uint64, r)
-	for i := range ids {
-		ids[i] = vpUint64()
-		if i > 0 {
-			vpAssume(ids[i-1] <= ids[i])
+	var openApps []uint64
+	var readers []reader
+	last := uint64(0)
+	lowestOpen := func() uint64 {
+		if len(openApps) == 0 {
+			return last
 		}
-		s.txs.add(ids[i])
+		return openApps[0]
 	}
-	iso := &isolationState{maxAppendID: vpUint64(), incompleteAppends: map[uint64]struct{}{}, isolation: &isolation{}}
-	ninc := vpShape("incomplete", 0, 2)
-	inc := make([]uint64, ninc)
-	for k := range inc {
-		inc[k] = vpUint64()
-		iso.incompleteAppends[inc[k]] = struct{}{}
-	}
-	ci := vpShape("chunk", 0, len(counts)-1)
-	it := s.iterator(s.firstChunkID+chunks.HeadChunkID(ci), vpXCountChunk{n: counts[ci]}, iso, nil)
-
-	// reference, from the property: index (in the series) of the first invisible sample among those the ring covers
-	firstInv := total
-	for i := r - 1; i >= 0; i-- {
-		invisible := ids[i] > iso.maxAppendID
-		for _, x := range inc {
-			invisible = vpOr(invisible, ids[i] == x)
+	for step := 0; step < 5; step++ {
+		switch vpShape("op", 0, 5) {
+		case 0:
+			id, lw := iso.newAppendID(0)
+			last++
+			vpAssert(id == last, "append IDs are issued in sequence")
+			openApps = append(openApps, id)
+			want := lowestOpen()
+			for _, r := range readers {
+				if r.lw < want {
+					want = r.lw
+				}
+			}
+			if len(readers) > 0 {
+				want = readers[0].lw
+				for _, r := range readers {
+					if r.lw < want {
+						want = r.lw
+					}
+				}
+			}
+			vpAssert(lw == want, "watermark handed to a new appender")
+		case 1:
+			if len(openApps) > 0 {
+				iso.closeAppend(openApps[0])
+				openApps = openApps[1:]
+			}
+		case 2:
+			if len(openApps) > 0 {
+				iso.closeAppend(openApps[len(openApps)-1])
+				openApps = openApps[:len(openApps)-1]
+			}
+		case 3:
+			st := iso.State(0, 10)
+			r := reader{st: st, lw: lowestOpen(), max: last, inc: append([]uint64(nil), openApps...)}
+			vpAssert(st.maxAppendID == r.max, "reader: newest append ID it may see")
+			vpAssert(st.lowWatermark == r.lw, "reader: lowest open append (or the last ID)")
+			vpAssert(len(st.incompleteAppends) == len(r.inc), "reader: exactly the open appends are incomplete")
+			for _, id := range r.inc {
+				_, ok := st.incompleteAppends[id]
+				vpAssert(ok, "reader: exactly the open appends are incomplete")
+			}
+			readers = append(readers, r)
+		case 4:
+			if len(readers) > 0 {
+				readers[0].st.Close()
+				readers = readers[1:]
+			}
+		case 5:
+			if len(readers) > 0 {
+				readers[len(readers)-1].st.Close()
+				readers = readers[:len(readers)-1]
+			}
 		}
-		firstInv = vpIte(invisible, total-r+i, firstInv)
+		want := lowestOpen()
+		if len(readers) > 0 {
+			want = readers[0].lw
+			for _, r := range readers {
+				if r.lw < want {
+					want = r.lw
+				}
+			}
+		}
+		got := iso.lowWatermark()
+		vpObserve("lw", got)
+		vpAssert(got == want, "low watermark = smallest watermark of an open reader, else the lowest open append ID")
+		vpAssert(iso.lastAppendID() == last, "last issued ID")
 	}
-	start := 0
-	for i := 0; i < ci; i++ {
-		start += counts[i]
-	}
-	want := firstInv - start
-	want = vpIte(want < 0, 0, want)
-	want = vpIte(want > counts[ci], counts[ci], want)
-	got := -1
-	switch x := it.(type) {
-	case *stopIterator:
-		got = x.stopAfter
-	case vpXFullIt:
-		got = counts[ci]
-	default:
-		got = 0
-	}
-	vpObserve("got", got)
-	vpAssert(got == want, "readers see exactly the samples of appends visible to their isolation state")
 	vpReach("end")
 }
